@@ -76,6 +76,12 @@ def body(rng, b: B, ind: str, is_test: bool, is_async: bool, n: list):
                 b.add("%s    src_%d" % (ind, k))
                 b.add("%s};" % ind)
                 b.add("%sconsume(keep_%d);" % (ind, k))
+            elif rng.random() < 0.3:
+                # the source is used afterwards - as an inline format argument ({name} inside the format string)
+                b.add("%slet src_%d = make_%d();" % (ind, k, k))
+                b.add("%slet c%d = src_%d.clone();" % (ind, k, k))
+                b.add("%sprintln!(\"{src_%d}\");" % (ind, k))
+                b.add("%sconsume(c%d);" % (ind, k))
             else:
                 b.add("%slet src_%d = make_%d();" % (ind, k, k))
                 b.add("%slet c%d = src_%d.clone();" % (ind, k, k))
@@ -98,7 +104,8 @@ def body(rng, b: B, ind: str, is_test: bool, is_async: bool, n: list):
             b.add(form % ((ind,) + (k,) * (form.count("%d"))), kind, **c)
         elif r < 0.7:
             pre = rng.choice(["std::fs::", "fs::"])
-            b.add("%slet f%d = %s%s(\"path_%d\");" % (ind, k, pre, rng.choice(FS_FUNCS), k), "fs", **c)
+            # (a call may carry explicit type arguments: std::fs::read::<&str>("p"))
+            b.add("%slet f%d = %s%s%s(\"path_%d\");" % (ind, k, pre, rng.choice(FS_FUNCS), rng.choice(["", "", "::<&str>"]), k), "fs", **c)
         elif r < 0.76:
             pre = rng.choice(["std::thread::", "thread::"])
             b.add("%s%ssleep(dur_%d);" % (ind, pre, k), "sleep", **c)
@@ -110,7 +117,12 @@ def body(rng, b: B, ind: str, is_test: bool, is_async: bool, n: list):
             b.add(rng.choice([
                 "%slet t%d = tokio::fs::read_to_string(\"p_%d\").await;", "%slet t%d = tokio::net::TcpStream::connect(\"h_%d:1\").await;",
                 "%slet t%d = async_std::fs::read(\"p_%d\").await;", "%slet t%d = fs::read_to_string(\"p_%d\").await;",
-                "%slet t%d = TcpStream::connect(\"h_%d:1\").await;"]) % (ind, k, k) if is_async else "%slet t%d = helper_%d();" % (ind, k, k))
+                "%slet t%d = TcpStream::connect(\"h_%d:1\").await;",
+                # the async twins NOT awaited on the spot (the future is stored, joined or raced later): still not std
+                "%slet fut%d = tokio::net::TcpStream::connect(\"h_%d:1\");", "%slet fut%d = async_std::net::TcpListener::bind(\"h_%d:1\");",
+                "%slet fut%d = crate::net::UdpSocket::bind(\"h_%d:1\");", "%slet fut%d = tokio::fs::read_to_string(\"p_%d\");",
+                "%slet fut%d = tokio::time::sleep(dur_%d);", "%slet fut%d = tokio::time::timeout(limit, tokio::net::TcpStream::connect(\"h_%d:1\"));"]) % (ind, k, k)
+                  if is_async else "%slet t%d = helper_%d();" % (ind, k, k))
         elif r < 0.94:
             wrapper = rng.choice(["tokio::task::spawn_blocking", "spawn_blocking", "tokio::task::block_in_place", "block_in_place"])
             b.add("%slet w%d = %s(|| {" % (ind, k, wrapper))
@@ -163,7 +175,8 @@ def gen_file(rng, idx):
             attrs.append(rng.choice(["#[inline]", "#[allow(dead_code)]", "#[allow(unused_variables)]", "#[must_use]"]))
         if not test_attr and rng.random() < 0.2:
             # attributes that merely contain the letters "test": production code
-            attrs.append(rng.choice(["#[cfg(not(test))]", "#[cfg(feature = \"latest\")]", "#[cfg(not( test ))]", "#[doc = \"not a test\"]"]))
+            attrs.append(rng.choice(["#[cfg(not(test))]", "#[cfg(feature = \"latest\")]", "#[cfg(not( test ))]", "#[doc = \"not a test\"]",
+                                     "#[cfg(not(any(test, feature = \"mock\")))]", "#[cfg(all(not(test), unix))]", "#[cfg_attr(test, allow(dead_code))]"]))
         if test_attr:
             attrs.insert(rng.randint(0, len(attrs)), test_attr)
         for a in attrs:
